@@ -79,7 +79,7 @@ func encodeValue(v reflect.Value) string {
 		}
 		return N("struct", args...)
 	default:
-		return N("other", I(int64(v.Kind())), X(v.Type().String()))
+		return N("other", I(int64(v.Kind())), X(v.Type().String()), X(v.Type().Name()), B(v.IsZero()))
 	}
 }
 
